@@ -41,7 +41,7 @@ def check(ctx):
     check_percolation(ctx)
 
 
-def check_moves(ctx):
+def check_moves(ctx, R1='R1', R6='R6'):
     fi = ctx.fn(FEG)
     for diag in (True, False):
         it = ctx.entry(FEG, args={'diagonal': const(diag)})
@@ -53,7 +53,7 @@ def check_moves(ctx):
             if e['tag'] == 'graph_add_edge':
                 directed = bool(e['graph'].directed)
         if not loops or directed is None:
-            ctx.ob('R1', fi, f'move table (diagonal={diag})', None, 'literal move table feeding add_edge not recognised')
+            ctx.ob(R1, fi, f'move table (diagonal={diag})', None, 'literal move table feeding add_edge not recognised')
             continue
         table = it.value_of(loops[-1].iter).litconst[1]
         moves = {tuple(int(x) for x in m) for m in table}
@@ -74,12 +74,12 @@ def check_moves(ctx):
                    f'symmetric under the cubic point group')
         elif extra:
             msg = f'the move table contains non-neighbour moves {extra}'
-        ctx.ob('R1', fi, f'move table (diagonal={diag})', ok, msg)
+        ctx.ob(R1, fi, f'move table (diagonal={diag})', ok, msg)
     # R6 neighbour wrap
     it = ctx.entry(FEG, args={'diagonal': const(True)})
     edges = uniq_events(it, {'graph_add_edge'}, lambda f: f.qualname == FEG)
     if not edges:
-        ctx.ob('R6', fi, 'add_edge', None, 'edge insertion not found')
+        ctx.ob(R6, fi, 'add_edge', None, 'edge insertion not found')
     for e in edges:
         v = e['v']
         # v = tuple((node + move) % data.shape)
@@ -111,7 +111,7 @@ def check_moves(ctx):
                         ok, msg = None, 'wrapped expression is not node + move'
                 elif rv is not None:
                     ok, msg = None, f'modulus `{norm_text(r)}` is not the shape of the energy array'
-        ctx.ob('R6', fi, src if src is not None else e['node'], ok, msg)
+        ctx.ob(R6, fi, src if src is not None else e['node'], ok, msg)
 
 
 def check_dispatch(ctx):
